@@ -342,4 +342,30 @@ example : pastNegotiation exRd.fsm = true ∧ exRd.saslAuth = true ∧ exRealReq
 def exStored : St := { db := { policies := [("h".toList, "port=6697,duration=1000".toList)] }, now := 5000 }
 example : (applyStsPolicy exStored ⟨"h".toList, 6667, none, false⟩).map (·.1) = some ⟨"h".toList, 6697, none, true⟩ := by decide
 
+/-! ### a restart: the networks data base persists, everything else is new -/
+
+/-- `SocketDriver(irc)` of a newly started process (`restart` in the harness: new Irc object, new driver, server
+list not loaded yet) whose first configured server has a stored, parsable, unexpired policy: the first
+connection of the new process goes to the policy's port with forced verification, over TLS — whatever else the
+data base holds. -/
+theorem restart_pins_policy (cfg : Cfg) (base : St) (srv : Server) (rest : List Server) (policy : Str) (port dur : Int)
+    (hs : cfg.servers = srv :: rest) (hb : base.drv.servers = [])
+    (hpol : dictGet base.db.policies srv.host = some policy)
+    (hparse : parseStsPolicy policy true = some ⟨port, some dur⟩)
+    (hexp : stsExpired (dictGet base.db.lastDisc srv.host) dur base.now = false) :
+    let s := drvStart cfg (initSt cfg base)
+    s.drv.connected = true ∧ s.drv.current.host = srv.host ∧ s.drv.current.port = port ∧ s.drv.current.forced = true ∧
+    (tlsChoice cfg s.drv.current).1 = true := by
+  have hi : (initSt cfg base).db = base.db ∧ (initSt cfg base).drv = base.drv ∧ (initSt cfg base).now = base.now := by
+    unfold initSt queueConnectMessages transition clearForReset resetSasl
+    simp only; split <;> exact ⟨rfl, rfl, rfl⟩
+  obtain ⟨h1, h2, h3⟩ := hi
+  have hflush : ∀ t : St, (flush t).drv = t.drv := by intro t; unfold flush; split <;> rfl
+  simp only [drvStart, hflush, drvConnect, getNextServer, h2, hb, List.isEmpty_nil, if_true, hs]
+  have happ := sts_applied ({ initSt cfg base with drv := { { base.drv with attempt := base.drv.attempt + 1, scheduled := false } with servers := rest }, ev := [], wire := [] } : St)
+    srv policy port dur (by simpa [h1] using hpol) hparse (by simpa [h1, h3] using hexp)
+  simp only [h2] at happ ⊢
+  rw [happ]
+  simp [connectTo, event, tlsChoice]
+
 end C09
